@@ -22,7 +22,9 @@ type sumTerm struct {
 	fn, h, s, lo, hi string
 }
 
-func (t sumTerm) text() string { return "(" + t.fn + " " + t.h + " " + t.s + " " + t.lo + " " + t.hi + ")" }
+func (t sumTerm) text() string {
+	return "(" + t.fn + " " + t.h + " " + t.s + " " + t.lo + " " + t.hi + ")"
+}
 
 func (t sumTerm) elem(k string) string {
 	return fmt.Sprintf("(select (select %s (sl.base %s)) (sl.ix %s %s))", t.h, t.s, t.s, k)
